@@ -2,9 +2,9 @@
    Spec/RespFormats.v states 37 response / parameter-data formats in the standards' notation (byte, msb, width),
    written by hand from SPC-4 / SBC-3 / SMC-3 / MMC-6.  The library's tables and the skeletons of its decoders
    (which tables, page codes, list start, length bytes, stride) are REGENERATED from /repo on every run. *)
-From Coq Require Import String.
-From PS Require Import Base.Bytes Base.Result Model.Converter Model.Parser Model.ParserInst.
-From PS Require Import Proofs.ParserProps Proofs.ParserChecks Spec.RespFormats Gen.Tables Gen.Parsers.
+From Coq Require Import String Lia.
+From PS Require Import Base.Bytes Base.Result Model.Converter Model.Parser Model.ParserInst Model.VarList.
+From PS Require Import Proofs.ParserProps Proofs.ParserChecks Proofs.VarListProps Spec.RespFormats Gen.Tables Gen.Parsers.
 Open Scope string_scope.
 Open Scope N_scope.
 
@@ -12,7 +12,7 @@ Theorem C04_nothing_skipped : unknown_parsers = [] /\ (30 <= length resp_formats
 Proof. split; [vm_compute; reflexivity|vm_compute; repeat constructor]. Qed.
 
 (* the decidable side conditions hold for the regenerated tables and decoder skeletons *)
-Theorem C04_side_conditions : formats_ok = true /\ structure_ok = true /\ lists_ok = true.
+Theorem C04_side_conditions : formats_ok = true /\ structure_ok = true /\ lists_ok = true /\ var_lists_ok = true.
 Proof. vm_compute. repeat split. Qed.
 
 (* FIELDS. For every format and EVERY buffer: decoding with the library's tables cannot fail and reports, under each
@@ -34,7 +34,24 @@ Theorem C04_descriptor_lists_exact :
     length hdr = s -> Forall (fun d => length d = k) descs ->
     (N.to_nat (ba_to_int (slice hdr a b)) + bias = s + k * length descs)%nat ->
     parse_list_named fn (hdr ++ concat descs ++ trail)%list = Some descs.
-Proof. apply lists_sound. exact (proj2 (proj2 C04_side_conditions)). Qed.
+Proof. apply lists_sound. exact (proj1 (proj2 (proj2 C04_side_conditions))). Qed.
+
+(* SELF-DESCRIBING DESCRIPTORS. The designation descriptors of the device identification page, the READ FULL STATUS
+   descriptors, the REPORT PRIORITY descriptors and the element status pages carry their own length; the decoders
+   (loop skeletons REGENERATED) advance by the standard's fixed part plus that field.  For every number of descriptors and
+   every content: if each descriptor's length field is honest, the walk returns exactly those descriptors, whole, in order. *)
+Theorem C04_self_describing_lists_exact :
+  forall fn f a b, In (fn, (f, a, b)) var_list_formats ->
+  forall descs : list bytes,
+    Forall (desc_ok (mkVP f a b)) descs ->
+    walk_named fn (concat descs) = Some descs.
+Proof.
+  intros fn f a b Hin descs Hd.
+  destruct (var_lists_sound (proj2 (proj2 (proj2 C04_side_conditions))) fn f a b Hin) as ([[n v] p] & Hf & H1 & H2 & H3).
+  unfold walk_named. rewrite Hf. cbn [snd] in *. destruct p as [f' a' b']. cbn [vp_fixed vp_a vp_b] in *. subst f' a' b'.
+  apply vchunks_exact; [assumption|].
+  clear -Hd. induction Hd as [|d ds (_ & Hp & _) _ IH]; [cbn; lia|]. cbn [concat length]. rewrite app_length. lia.
+Qed.
 
 (* VPD pages are cut at PAGE LENGTH + 4 before decoding: fields inside the page are unaffected *)
 Theorem C04_vpd_cut_preserves_fields : forall data b m w,
